@@ -9,13 +9,13 @@ for P in sys.argv[1:]:
         d = os.path.join(src, n)
         if not os.path.isfile(os.path.join(d, "patch.diff")):
             continue
-        dst = "/verif/seeded/%s-m%s" % (P, n)
+        dst = "/verif/seeded/%s-%s%s" % (P, os.environ.get("MUT_TAG", "m"), n)
         os.makedirs(dst, exist_ok=True)
         for f in ("patch.diff", "demo.py", "README.md"):
             if os.path.exists(os.path.join(d, f)):
                 shutil.copy(os.path.join(d, f), os.path.join(dst, f))
         meta_p = os.path.join(dst, "meta.json")
         if not os.path.exists(meta_p):
-            json.dump({"id": "%s-m%s" % (P, n), "property": P, "origin": "independent sub-agent given only the property text and a scratch worktree",
+            json.dump({"id": os.path.basename(dst), "property": P, "origin": "independent sub-agent given only the property text and a scratch worktree",
                        "needs_to_manifest": "see README.md", "confirmed": {}, "caught_by": None}, open(meta_p, "w"), indent=1)
         print("imported", dst)
